@@ -80,6 +80,9 @@ var c02Scenarios = []C02Plan{
 	{Attack: "skip", Msg: 66, Arg: "plain"}, {Attack: "skip", Msg: 68, Arg: "plain"}, {Attack: "skip", Msg: 70, Arg: "plain"},
 	{Attack: "skip", Msg: 66, Arg: "selfkey"}, {Attack: "skip", Msg: 68, Arg: "selfkey"}, {Attack: "skip", Msg: 70, Arg: "selfkey"},
 	{Attack: "skip", Msg: 68, Arg: "garbage"}, {Attack: "skip", Msg: 70, Arg: "garbage"},
+	// guessable keys: what a session might hold before the key exchange completed
+	{Attack: "skip", Msg: 66, Arg: "zerokey"}, {Attack: "skip", Msg: 68, Arg: "zerokey"}, {Attack: "skip", Msg: 70, Arg: "zerokey"},
+	{Attack: "skip", Msg: 66, Arg: "onekey"}, {Attack: "skip", Msg: 68, Arg: "onekey"},
 	{Attack: "hijack", Msg: 66, Arg: "plain"}, {Attack: "hijack", Msg: 68, Arg: "plain"}, {Attack: "hijack", Msg: 70, Arg: "plain"},
 	{Attack: "hijack", Msg: 68, Arg: "selfkey"}, {Attack: "hijack", Msg: 70, Arg: "selfkey"}, {Attack: "hijack", Msg: 70, Arg: "garbage"},
 	{Attack: "notoken", Msg: 62}, {Attack: "notoken", Msg: 64}, {Attack: "notoken", Msg: 66}, {Attack: "notoken", Msg: 68}, {Attack: "notoken", Msg: 70},
@@ -600,8 +603,19 @@ func c02LateBody(msg int, enc string, spec CipherSpec) []byte {
 	default: // selfkey: a well-formed COSE object under keys the adversary chose
 		sek := make([]byte, spec.KeyLen)
 		svk := make([]byte, spec.MacLen)
-		_, _ = rand.Read(sek)
-		_, _ = rand.Read(svk)
+		switch enc {
+		case "zerokey":
+		case "onekey":
+			for i := range sek {
+				sek[i] = 0xff
+			}
+			for i := range svk {
+				svk[i] = 0xff
+			}
+		default:
+			_, _ = rand.Read(sek)
+			_, _ = rand.Read(svk)
+		}
 		sc := kex.SessionCrypter{ID: spec.ID, Cipher: spec.ID.Suite(), SEK: sek, SVK: svk}
 		v, err := sc.Encrypt(rand.Reader, cbor.RawBytes(plain))
 		if err != nil {
